@@ -30,7 +30,8 @@ RULE = (
     'attribute removed, element renamed to an unknown name, 1.1-only element inserted in a 1.0 '
     'document, 1.0 DOCTYPE on a document with 1.1-only elements, single-valued child repeated, '
     'closing tag removed, end tag mismatched, attribute written twice, file truncated, seven '
-    'header faults; oracle: load raises, add raises and the raw table dump is unchanged (database '
+    'header faults (and, judged either way - rejected by load and add, or accepted with scan == '
+    'load -, a lexicon, the root element or Extends nested where no DTD has it); oracle: load raises, add raises and the raw table dump is unchanged (database '
     'empty or holding an unrelated lexicon), is_lmf false for header faults and true for body '
     'faults (the mutants of one document are successive edits of one path, the intact '
     'document first; sites inside a LexiconExtension are kinds of their own); 16 further '
@@ -151,7 +152,8 @@ def _valid_cases(draw):
 
 _BODY_WEIGHTED = (['attr-removed'] * 4 + ['elem-renamed'] * 3 + ['v11-elem-in-v10'] * 3
                   + ['doctype-downgrade'] + ['child-duplicated'] * 3 + ['close-tag-removed'] * 2
-                  + ['end-tag-mismatch'] + ['attr-duplicated'] + ['truncated'] * 3)
+                  + ['end-tag-mismatch'] + ['attr-duplicated'] + ['truncated'] * 3
+                  + ['misnested'] * 2)
 
 
 @st.composite
@@ -535,6 +537,18 @@ def _one_mutant(case, k, mut, orig, d, out):
 
     if built.header == 'intact' and is_lmf is False:
         out.append(Disc('is_lmf-false-with-valid-header', where, True, False, note=_what(built)))
+    if built.cls in lmfmut.EITHER_WAY:
+        # not a fault the property lists: rejected (then by add as well, database unchanged) or
+        # accepted - and then the scan has to agree with what load() returns
+        try:
+            lmf.load(f, progress_handler=None)
+        except Exception as exc:  # noqa: BLE001
+            _note_outcome(case, f'{built.cls}:load-raises:{type(exc).__name__}')
+            _add_must_reject(dbstate, case, f, built, d, out)
+        else:
+            _note_outcome(case, f'{built.cls}:load-returns')
+            _check_valid_file(case, f, built.cls, dbstate, d, out)
+        return
     if built.header == 'fault' and is_lmf is True:
         out.append(Disc('is_lmf-true-with-invalid-header', where, False, True, note=_what(built)))
 
